@@ -200,6 +200,33 @@ def judge(ctx, run, drv_lines_out=None):
     elif run["result"] == "steps":
         probs.append("schedule did not terminate (livelock)")
     probs += run.get("late", [])
+    # sequential reference over the call returns: who holds what
+    hold = {}       # (tid, is_down) -> count
+    pcs = {}
+    for ev in run["events"]:
+        _, tid, out = ev[0], ev[1], ev[2]
+        k = pcs.get(tid, 0)
+        prog = [op for op in run["progs"][tid] if op[0] != "sleep"]
+        if k >= len(prog):
+            continue
+        op = prog[k]
+        pcs[tid] = k + 1
+        if op[0] == "acq" and out == "acquired":
+            d = bool(op[1])
+            others = [(t, dd) for (t, dd), c in hold.items() if c > 0 and dd != d]
+            if others:
+                probs.append(f"thread {tid} acquired {'down' if d else 'up'} while {others} hold the opposite state (mutual exclusion)")
+            hold[(tid, d)] = hold.get((tid, d), 0) + 1
+        elif op[0] == "rel":
+            d = bool(op[1])
+            if out == "released":
+                if hold.get((tid, d), 0) == 0:
+                    probs.append(f"thread {tid} released {'down' if d else 'up'} without holding it and the call was accepted "
+                                 f"(holders: {[(t, dd, c) for (t, dd), c in hold.items() if c > 0]})")
+                else:
+                    hold[(tid, d)] -= 1
+            elif out == "error" and hold.get((tid, d), 0) > 0:
+                probs.append(f"thread {tid} holds {'down' if d else 'up'} but its release was rejected")
     for (li, cnt, owners, parked) in run["snaps"]:
         for tid, (want_down, notified) in parked.items():
             excluded = cnt > 0 if want_down else cnt < 0
@@ -325,7 +352,7 @@ def run(ctx):
                          "final_count": r["final"][0]} if nwait and len(ctx.samples) < 3 else None)
         for p in judge(ctx, r):
             free = r["final"][0] == 0
-            ctx.violation(("late:" if "beyond its deadline" in p else "lostwake:" if free else "deadlock:") + json.dumps(r["progs"])[:50], p,
+            ctx.violation(("late:" if "beyond its deadline" in p else "holder:" if ("without holding" in p or "mutual exclusion" in p or "was rejected" in p) else "lostwake:" if free else "deadlock:") + json.dumps(r["progs"])[:50], p,
                           {"kind": "schedule", "programs": r["progs"], "schedule": r["taken"], "problem": p,
                            "sched_log": r["sched_log"][-30:]})
     compare_with_model(ctx, runs)
